@@ -70,6 +70,9 @@ func (s *ServerLedActivationToken) Store(ctx context.Context, storage nodeenroll
 		if err != nil {
 			return fmt.Errorf("(%s) error marshaling wrapped creation time: %w", op, err)
 		}
+		// The creation time is always overwritten on load from the (now
+		// wrapped) marshaled value, so don't persist it in the clear next to it
+		tokenToStore.CreationTime = nil
 	}
 
 	if err := storage.Store(ctx, tokenToStore); err != nil {
